@@ -110,6 +110,61 @@ pub fn delete(_thorough: bool) -> Report {
         }
     }
     }
+    // directories the owner cannot read or search are only an obstacle for a NON-root user: that part runs as uid 65534 when possible
+    if unsafe { libc_geteuid() } == 0 && std::process::Command::new("setpriv").arg("--version").output().is_ok() {
+        let t = tempfile::tempdir().unwrap();
+        fs::set_permissions(t.path(), fs::Permissions::from_mode(0o777)).unwrap();
+        let exe = std::env::current_exe().unwrap();
+        let out = std::process::Command::new("setpriv").args(["--reuid=65534", "--regid=65534", "--clear-groups"]).arg(&exe).arg("c11_nonroot").env("VERIF_NONROOT_DIR", t.path()).output();
+        match out.ok().and_then(|o| String::from_utf8(o.stdout).ok()).and_then(|s| s.lines().last().map(String::from)) {
+            Some(line) if line.starts_with('{') => {
+                // violations come back as case|what|input|expected|actual lines in a tiny ad-hoc format inside "violations"
+                for chunk in line.split("{\"case\":").skip(1) {
+                    let f = |k: &str| chunk.split(&format!("\"{k}\":\"")).nth(1).and_then(|x| x.split("\",\"").next()).unwrap_or("").trim_end_matches("\"}").trim_end_matches("\"}]").to_string();
+                    let case = chunk.split('"').nth(1).unwrap_or("nonroot").to_string();
+                    r.violation(&case, &f("what"), f("input"), f("expected"), f("actual"));
+                }
+                r.evaluations += 6; r.nontrivial += 6;
+            }
+            _ => { r.samples.push("non-root part skipped: child produced no result".into()); }
+        }
+    } else { r.samples.push("non-root part skipped (not running as root or no setpriv)".into()); }
     r.samples.push("layer path kind=1 (symlink to a directory elsewhere), uncached_layer".into());
+    r
+}
+unsafe fn libc_geteuid() -> u32 { unsafe extern "C" { fn geteuid() -> u32; } unsafe { geteuid() } }
+
+// runs as an unprivileged user inside VERIF_NONROOT_DIR (created 0777 by the parent): layer trees with directories their owner cannot
+// read / search / write must still be deletable, and everything of the layer must be gone afterwards
+pub fn nonroot(_thorough: bool) -> Report {
+    let mut r = Report::new("as uid 65534: layer trees containing directories with modes 0300, 0100, 0000, 0500 (empty and non-empty, nested), deleted via uncached_layer and cached_layer+DeleteLayer: the request succeeds, the layer is an empty directory, metadata and SBOM of the old layer are gone, nothing outside the layer changed", "4 modes x {empty, non-empty} (combined in one tree) x 2 API calls, plus 1 tree per single mode");
+    let base = std::path::PathBuf::from(std::env::var("VERIF_NONROOT_DIR").unwrap_or_default());
+    if base.as_os_str().is_empty() { return r; }
+    let mut n = 0;
+    for modes in [vec![0o300u32, 0o100, 0o000, 0o500], vec![0o300], vec![0o000]] { for api in 0..2 {
+        r.evaluations += 1; r.nontrivial += 1; n += 1;
+        let root = base.join(format!("case{n}")); fs::create_dir_all(root.join("outside")).unwrap(); fs::write(root.join("outside/keep"), b"k").unwrap();
+        let layers = root.join("layers"); fs::create_dir_all(layers.join("x/bin")).unwrap(); fs::write(layers.join("x/bin/tool"), b"t").unwrap();
+        for (i, m) in modes.iter().enumerate() {
+            let full = layers.join(format!("x/d{i}")); fs::create_dir_all(full.join("nested/deeper")).unwrap(); fs::write(full.join("secret.txt"), b"s").unwrap(); fs::write(full.join("nested/deeper/f"), b"f").unwrap();
+            let empty = layers.join(format!("x/e{i}")); fs::create_dir(&empty).unwrap();
+            fs::set_permissions(full.join("nested"), fs::Permissions::from_mode(*m)).unwrap();
+            fs::set_permissions(&full, fs::Permissions::from_mode(*m)).unwrap(); fs::set_permissions(&empty, fs::Permissions::from_mode(*m)).unwrap();
+        }
+        fs::write(layers.join("x.toml"), b"[types]\ncache = true\n").unwrap(); fs::write(layers.join("x.sbom.spdx.json"), b"{}").unwrap();
+        let before = snapshot(&root.join("outside"), &[]);
+        let c = ctx(&layers);
+        let res = if api == 0 { c.uncached_layer("x".parse::<libcnb::data::layer::LayerName>().unwrap(), UncachedLayerDefinition { build: true, launch: false }).map(|_| ()) }
+            else { c.cached_layer("x".parse::<libcnb::data::layer::LayerName>().unwrap(), CachedLayerDefinition { build: true, launch: false, invalid_metadata_action: &|_| InvalidMetadataAction::DeleteLayer, restored_layer_action: &|_: &GenericMetadata, _| RestoredLayerAction::DeleteLayer }).map(|_| ()) };
+        let input = format!("uid 65534; nested directories with modes {:?} (octal {}), api {api} (0 uncached_layer, 1 cached_layer+DeleteLayer)", modes, modes.iter().map(|m| format!("{m:o}")).collect::<Vec<_>>().join(" "));
+        match res {
+            Err(e) => r.violation("delete_restricted_dirs", "a layer containing directories its owner cannot read or search is deleted all the same", input, "Ok".into(), e.to_string().replace('"', "'")),
+            Ok(()) => {
+                let empty = fs::read_dir(layers.join("x")).map(|mut d| d.next().is_none()).unwrap_or(false);
+                if !empty || layers.join("x.sbom.spdx.json").exists() { r.violation("delete_restricted_dirs", "all of the layer's own entries are gone", input.clone(), "empty layer dir, no SBOM".into(), format!("empty={empty} sbom={}", layers.join("x.sbom.spdx.json").exists())); }
+                if snapshot(&root.join("outside"), &[]) != before { r.violation("outside_untouched", "something outside the layer changed", input, "unchanged".into(), "changed".into()); }
+            }
+        }
+    } }
     r
 }
